@@ -8,6 +8,7 @@ use crate::text::*;
 pub fn run(rng: &mut Rng, n: usize, out: &mut Out, which: &str) {
     let mut st = ImplState::new();
     let g = Gen::new();
+    out.run(&mut st, "impl.viafen on");
     // corpus first (every hand-made tricky position, then positions after each legal move from them)
     let mut queue: Vec<crate::board::Board> = Vec::new();
     for fen in posgen::CORPUS { queue.push(crate::board::Board::new(fen)); }
